@@ -995,12 +995,10 @@ impl<T, S: Status> FusedIterator for Drain<'_, T, S> {}
 
 impl<T, S: Status> Drop for Drain<'_, T, S> {
     fn drop(&mut self) {
-        while self.len != 0 {
-            let next = self.iter.next();
-            debug_assert!(next.is_some());
-            // SAFETY: The remaining part of the slice has at least `self.len`
-            // elements by invariant
-            let slot = unsafe { next.unwrap_unchecked() };
+        // `RawTable::drain()` accounts all slots as free. Hence, we need to
+        // visit all remaining slots, not only those up to the last element:
+        // there may be tombstones behind it.
+        for slot in self.iter.by_ref() {
             let status = slot.status;
             slot.status = S::FREE;
             if status.is_hash() {
@@ -1011,6 +1009,7 @@ impl<T, S: Status> Drop for Drain<'_, T, S> {
                 unsafe { slot.data.assume_init_drop() };
             }
         }
+        debug_assert_eq!(self.len, 0);
     }
 }
 
